@@ -117,6 +117,29 @@ inductive Expr
   | forEnum (q : QKind) (qe : Expr) (items : List Expr) (body : Expr)
   | forOf (q : QKind) (qe : Expr) (set : List Nat) (body : Expr)
 
+/-! ### string sets and rule sets as written: which strings / rules an item denotes
+
+`Expr` carries sets already expanded to indices (`List Nat`, one entry per pushed string / rule, duplicates kept:
+`2 of ($a, $a*)` counts `$a` twice).  The expansion of the written items is part of the language: an item WITHOUT a
+trailing `*` denotes the one string (rule) whose identifier is EXACTLY the item — never the strings whose identifiers
+merely start with it (`($a)` does not contain `$ab`); an item `p*` denotes every string (every rule declared earlier)
+whose identifier starts with `p`, in declaration order; `them` is `$*`. -/
+
+inductive SetItem
+  | exact (ident : String)
+  | wild (pfx : String)
+  | them
+deriving Repr
+
+/-- indices (into the declaration-ordered identifier list `names`) an item denotes -/
+def SetItem.denotes (names : List String) : SetItem → List Nat
+  | .exact ident => (List.range names.length).filter fun i => names.getD i "" == ident
+  | .wild pfx => (List.range names.length).filter fun i => pfx.toList.isPrefixOf (names.getD i "").toList
+  | .them => List.range names.length
+
+/-- a written set: item by item, each item's strings in declaration order (the order of the compiler's pushes) -/
+def setDenotes (names : List String) (items : List SetItem) : List Nat := items.flatMap (SetItem.denotes names)
+
 /-- what a condition is evaluated against -/
 structure Env where
   strs : List (List (Int × Int))      -- per string: all matches (offset, length), ascending by offset
